@@ -176,6 +176,35 @@ func c17Gen(g *Gen) {
 	}
 	c17Interleave([][]c17Op{c17ConnProgram(0, 0, true), c17ConnProgram(1, 0, true)}, sampled("D:same-number", 2, 2, 1, 1))
 
+	// F: end to end through the real Reloader (config files, real pipelines, fake upstream)
+	e2e := func(mode, per int, kinds ...int) {
+		g.Count("F:end-to-end")
+		z := []int64{int64(mode), int64(per)}
+		for _, k := range kinds {
+			z = append(z, int64(k))
+		}
+		g.Case(2, nil, z)
+	}
+	e2e(0, 60, 2, 1, 0, 4, 3, 0)
+	if g.Thorough() {
+		e2e(0, 400, 0)
+		e2e(0, 400, 1)
+		e2e(0, 400, 2)
+		e2e(0, 400, 3)
+		e2e(0, 400, 4)
+		e2e(0, 200, 0, 0, 0, 0)
+		e2e(1, 300, 1, 0, 2, 0)
+		for i := 0; i < 6; i++ {
+			var ks []int
+			for j := r.Range(1, 5); j > 0; j-- {
+				ks = append(ks, r.PickInt([]int{0, 0, 1, 2, 3, 4}))
+			}
+			e2e(r.Intn(2), r.Range(20, 300), ks...)
+		}
+	} else {
+		e2e(1, 40, 1, 0)
+	}
+
 	// E: random longer schedules
 	for i := 0; i < g.Pick(4000, 150000); i++ {
 		c17Random(g, emit, false)
